@@ -46,6 +46,7 @@ def as_ref(v):
 
 def build(reg):
     add_common(reg)
+    build_levels(reg)
     wfreq = lambda S, tree: WF(S.H, tree) & (tree != None) & wf_theory(S.H)
 
     reg.add(Contract(
@@ -479,6 +480,112 @@ VERIFY_AS["trees.trees.preorder"] = preorder_verified_contract
 VERIFY.append("trees.trees.preorder")
 VERIFY_AS["trees.trees.postorder"] = postorder_verified_contract
 VERIFY.append("trees.trees.postorder")
+
+
+# ------------------------------------------------------------------------------------------------------------------
+# trees.levels: reverse_levels[x] is the longest downward path from x to a token, for exactly the constituents below
+# the argument; levels[h] lists exactly the constituents of height h
+# ------------------------------------------------------------------------------------------------------------------
+def mh_def(H):
+    """definition of MH(x) = max over the tokens t below x of depth(t) - depth(x), with a witness index into T(x)
+    (validated on enumerated trees by bounded/c19.py, ghost_axioms)"""
+    x, i = z3.Int(fresh_name("hx")), z3.Int(fresh_name("hi"))
+    wf = lambda r: tobool(WF(H, VRef(r)))
+    T = lambda r: H.terms(VRef(r))
+    dep = lambda r: H.depth(VRef(r)).t
+    mh = lambda r: H.mh(VRef(r)).t
+    w = lambda r: H.mh_witness(VRef(r)).t
+    return VBool(z3.And(
+        qforall([x], z3.Implies(wf(x), z3.And(0 <= w(x), w(x) < T(x).n, mh(x) == dep(T(x).get(w(x)).t) - dep(x))),
+                [mh(x)]),
+        qforall([x, i], z3.Implies(z3.And(wf(x), 0 <= i, i < T(x).n), dep(T(x).get(i).t) - dep(x) <= mh(x)),
+                [[wf(x), T(x).get(i).t]])))
+
+
+def levels_contract(reg):
+    from pyvc import sym as _sym
+    LEV, REV = _sym.TSMap(TList(REF)), _sym.TSMap(INT)
+    TYPES = {"levels": LEV, "reverse_levels": REV}
+
+    def requires(S, tree):
+        return conj(WF(S.H, tree), tree != None, wf_theory(S.H), mh_def(S.H))
+
+    def cons_below(H, tree, x):
+        return z3.And(tobool(WF(H, VRef(x))), tobool(desc(H, tree, VRef(x))), H.nchild_t(x) > 0)
+
+    def maps_ok(H, tree, lev, rev, upto):
+        """the two dicts describe exactly the constituents among the first `upto` nodes of the preorder"""
+        P = H.pre(tree)
+        k, x, l, j, j2 = (z3.Int(fresh_name(c)) for c in ("mk", "mx", "ml", "mj", "mq"))
+        idx = lambda r: H.pre_idx(tree, VRef(r)).t
+        mh = lambda r: H.mh(VRef(r)).t
+        seen = lambda r: z3.And(0 <= idx(r), idx(r) < upto, P.get(idx(r)).t == r, H.nchild_t(r) > 0)
+        row = lambda q: lev.get(q)
+        return z3.And(
+            qforall([k], z3.Implies(z3.And(0 <= k, k < upto, H.nchild_t(P.get(k).t) > 0), z3.And(
+                tobool(rev.has(P.get(k).t)), rev.get(P.get(k).t).t == mh(P.get(k).t),
+                tobool(lev.has(mh(P.get(k).t))),
+                z3.Exists([j], z3.And(0 <= j, j < row(mh(P.get(k).t)).n, row(mh(P.get(k).t)).get(j).t == P.get(k).t)))),
+                [P.get(k).t]),
+            qforall([x], z3.Implies(tobool(rev.has(x)), seen(x)), [tobool(rev.has(x))]),
+            qforall([l, j2], z3.Implies(z3.And(tobool(lev.has(l)), 0 <= j2, j2 < row(l).n),
+                                        z3.And(seen(row(l).get(j2).t), mh(row(l).get(j2).t) == l)),
+                    [row(l).get(j2).t]),
+            qforall([l], row(l).n >= 0, [row(l).n]))
+
+    def outer_inv(S):
+        return VBool(maps_ok(S.H, S.tree, S.levels, S.reverse_levels, toint(S.it)))
+
+    def middle_inv(S):
+        H, sub, level, it = S.H, S.subtree, toint(S.level), toint(S.it)
+        T = H.terms(sub)
+        i = z3.Int(fresh_name("li"))
+        diff = lambda q: H.depth(T.get(q)).t - H.depth(sub).t
+        return conj(VBool(level >= 0),
+                    VBool(qforall([i], z3.Implies(z3.And(0 <= i, i < it), diff(i) <= level), [T.get(i).t])),
+                    VBool(z3.Or(level == 0, z3.Exists([i], z3.And(0 <= i, i < it, level == diff(i))))))
+
+    def inner_inv(S):
+        H, sub, t, pe, pl = S.H, S.subtree, S.terminal, S.path_element, toint(S.path_length)
+        return conj(pe != None, WF(H, pe), VBool(pl >= 0),
+                    VBool(pe.t == H.anc(t, VInt(H.depth(t).t - pl)).t),
+                    VBool(H.depth(t).t - pl >= H.depth(sub).t))
+
+    def post(S, tree, result):
+        H = S.H
+        lev, rev = result.items
+        x, l, j, j2 = (z3.Int(fresh_name(c)) for c in ("px", "pl", "pj", "pq"))
+        mh = lambda r: H.mh(VRef(r)).t
+        row = lambda q: lev.get(q)
+        return VBool(z3.And(
+            # every constituent below the argument has its height recorded, and is listed under that height
+            qforall([x], z3.Implies(cons_below(H, tree, x), z3.And(
+                tobool(rev.has(x)), rev.get(x).t == mh(x), tobool(lev.has(mh(x))),
+                z3.Exists([j], z3.And(0 <= j, j < row(mh(x)).n, row(mh(x)).get(j).t == x)))),
+                [tobool(rev.has(x))]),
+            # and nothing else is recorded
+            qforall([x], z3.Implies(tobool(rev.has(x)), cons_below(H, tree, x)), [tobool(rev.has(x))]),
+            qforall([l, j2], z3.Implies(z3.And(tobool(lev.has(l)), 0 <= j2, j2 < row(l).n),
+                                        z3.And(cons_below(H, tree, row(l).get(j2).t), mh(row(l).get(j2).t) == l)),
+                    [row(l).get(j2).t])))
+
+    return Contract(
+        target="trees.trees.levels", prop="C19", args=dict(tree=REF),
+        requires=requires,
+        ensures={"height_of_exactly_the_constituents_below": post},
+        result_type=TTuple(LEV, REV),
+        loops={0: dict(inv=outer_inv, types=TYPES),
+               1: dict(inv=middle_inv, types=TYPES),
+               2: dict(inv=inner_inv, types=TYPES, variant=lambda S: S.H.depth(S.path_element) - S.H.depth(S.subtree))},
+        solver_hints={"inv0.keep": {"cli_s": 60}, "post.": {"cli_s": 30}},
+    )
+
+
+def build_levels(reg):
+    reg.add(levels_contract(reg))
+
+
+VERIFY.append("trees.trees.levels")
 
 
 # ------------------------------------------------------------------------------------------------------------------
